@@ -10,6 +10,8 @@ CONSTANTS
   RODepth = 0
   OkBias = 0
   Shape <- MCShape
+  Flags <- MCFlags
+  HandleActs <- MCHandleActs
   ChunkBlocks <- MCChunkBlocks
 SPECIFICATION MCSpec
 VIEW ROView
